@@ -43,24 +43,51 @@ mod tok {
 
 // ---------------------------------------------------------------- harness target
 mod target {
-    use soroban_sdk::{contract, contractimpl, contracttype, symbol_short, Address, Env, Vec};
+    use soroban_sdk::{contract, contractimpl, contracttype, symbol_short, Address, Env, Error, IntoVal, Symbol, Val, Vec};
+    /// one received call: function number and the arguments as received (re-entering functions append the
+    /// result of the call they made from inside: 1 = went through, 0 = refused and rolled back)
     #[contracttype]
     #[derive(Clone)]
-    pub struct Ent { pub f: u32, pub who: Option<Address>, pub v: i128 }
+    pub struct Ent { pub f: u32, pub a: Vec<Val> }
     #[contract]
     pub struct Target;
-    fn push(e: &Env, en: Ent) -> i128 {
+    fn push(e: &Env, f: u32, a: Vec<Val>) -> i128 {
         let mut l: Vec<Ent> = e.storage().instance().get(&symbol_short!("log")).unwrap_or(Vec::new(e));
-        l.push_back(en);
+        l.push_back(Ent { f, a });
         e.storage().instance().set(&symbol_short!("log"), &l);
         l.len() as i128
     }
+    /// the inner call of a re-entering function: swallowed (try) or propagated
+    fn inner(e: &Env, c: &Address, f: &str, args: Vec<Val>, sw: i128) -> i128 {
+        let r = e.try_invoke_contract::<Val, Error>(c, &Symbol::new(e, f), args);
+        let ok = matches!(r, Ok(Ok(_)));
+        if !ok && sw == 0 { panic!("inner call refused") }
+        ok as i128
+    }
     #[contractimpl]
     impl Target {
-        pub fn hit(e: &Env, v: i128) -> i128 { push(e, Ent { f: 1, who: None, v }) }
+        pub fn hit(e: &Env, v: i128) -> i128 { push(e, 1, (v,).into_val(e)) }
         /// writes its log entry and then fails: the write must not persist
-        pub fn boom(e: &Env, v: i128) -> i128 { push(e, Ent { f: 2, who: None, v }); panic!("boom") }
-        pub fn auth_hit(e: &Env, who: Address, v: i128) -> i128 { who.require_auth(); push(e, Ent { f: 3, who: Some(who), v }) }
+        pub fn boom(e: &Env, v: i128) -> i128 { push(e, 2, (v,).into_val(e)); panic!("boom") }
+        pub fn auth_hit(e: &Env, who: Address, v: i128) -> i128 { who.require_auth(); push(e, 3, (who, v).into_val(e)) }
+        /// malicious: from inside the forwarded call, pull `amt` of `from`'s tokens through `spender`'s allowance
+        pub fn pull(e: &Env, tk: Address, spender: Address, from: Address, to: Address, amt: i128, sw: i128) -> i128 {
+            let r = inner(e, &tk, "transfer_from", (spender.clone(), from.clone(), to.clone(), amt).into_val(e), sw);
+            push(e, 5, (tk, spender, from, to, amt, sw, r).into_val(e))
+        }
+        /// malicious: approve on behalf of `owner`
+        pub fn approve_for(e: &Env, tk: Address, owner: Address, spender: Address, amt: i128, exp: i128, sw: i128) -> i128 {
+            let r = inner(e, &tk, "approve", (owner.clone(), spender.clone(), amt, exp as u32).into_val(e), sw);
+            push(e, 6, (tk, owner, spender, amt, exp, sw, r).into_val(e))
+        }
+        /// malicious: call forward() of `fwd` from inside (contract re-entry when `fwd` is the calling forwarder)
+        pub fn reenter(e: &Env, fwd: Address, sw: i128) -> i128 {
+            let me = e.current_contract_address();
+            let none: Vec<Val> = Vec::new(e);
+            let args: Vec<Val> = (fwd.clone(), 0i128, 0i128, 0u32, me.clone(), Symbol::new(e, "hit"), none, me.clone(), me).into_val(e);
+            let r = inner(e, &fwd, "forward", args, sw);
+            push(e, 7, (fwd, sw, r).into_val(e))
+        }
     }
 }
 
@@ -90,9 +117,10 @@ const HOST_B: (u32, u32, u32) = (16, 4096, 6_312_000);
 const LONG_GAPS: [u32; 6] = [20, 100, 17_281, 20_000, 600_000, 4_000_000];
 
 const F_HIT: u32 = 1; const F_BOOM: u32 = 2; const F_AUTH: u32 = 3; const F_NOPE: u32 = 4;
+const F_PULL: u32 = 5; const F_APPROVE_FOR: u32 = 6; const F_REENTER: u32 = 7;
 const F_FORWARD: u32 = 10; const F_APPROVE: u32 = 11; const F_ENABLE: u32 = 12; const F_DISABLE: u32 = 13; const F_SWEEP: u32 = 14;
 fn fname(f: u32) -> &'static str {
-    match f { 1 => "hit", 2 => "boom", 3 => "auth_hit", 4 => "nope", 10 => "forward", 11 => "approve",
+    match f { 1 => "hit", 2 => "boom", 3 => "auth_hit", 4 => "nope", 5 => "pull", 6 => "approve_for", 7 => "reenter", 15 => "transfer_from", 10 => "forward", 11 => "approve",
               12 => "enable_fee_token", 13 => "disable_fee_token", 14 => "sweep_tokens", _ => "zzz" }
 }
 
@@ -258,7 +286,10 @@ impl World {
         for t in TARGETS {
             let l: SVec<target::Ent> = e.as_contract(&self.addr[t], || e.storage().instance().get(&soroban_sdk::symbol_short!("log")).unwrap_or(SVec::new(e)));
             o.logs.push(l.iter().map(|en| {
-                let args = match &en.who { Some(a) => vec![At::A(self.idx_of(a).unwrap_or(99)), At::I(en.v)], None => vec![At::I(en.v)] };
+                let args: Vec<At> = en.a.iter().map(|v| match Address::try_from_val(e, &v) {
+                    Ok(a) => At::A(self.idx_of(&a).unwrap_or(99)),
+                    Err(_) => At::I(i128::try_from_val(e, &v).unwrap_or(-999)),
+                }).collect();
                 (en.f, args)
             }).collect());
         }
@@ -507,7 +538,7 @@ impl Gen {
             let fw = fwd_addr(f.pd);
             let (a0, _l0) = w.obs.alw(f.tok, f.user, fw);
             let bal = w.obs.bal(f.tok, f.user);
-            match rng.below(34) {
+            match rng.below(42) {
                 0 => { f.fee = 0; tags.push("fee:zero".into()); }
                 1 => { f.fee = -(1 + rng.below(5) as i128); tags.push("fee:negative".into()); }
                 2 => { f.fee = f.max.saturating_add(1); tags.push("fee:max+1".into()); }
@@ -542,7 +573,21 @@ impl Gen {
                 30 => { f.f = F_AUTH; f.args = vec![At::A(f.user), At::I(3)]; tags.push("target:auth-user".into()); }
                 31 => { f.f = F_AUTH; f.args = vec![At::A(X), At::I(4)]; tags.push("target:auth-third".into()); }
                 32 => { f.f = F_AUTH; f.args = vec![At::A(fwd_addr(f.pd)), At::I(5)]; tags.push("target:auth-forwarder".into()); }
-                _ => { f.f = F_AUTH; f.args = vec![At::A(f.relayer), At::I(6)]; tags.push("target:auth-relayer".into()); }
+                33 => { f.f = F_AUTH; f.args = vec![At::A(f.relayer), At::I(6)]; tags.push("target:auth-relayer".into()); }
+                // re-entering targets: pull the remaining allowance through the forwarder, approve for the user, re-enter
+                34 | 35 => { let sw = rng.below(2) as i128; let amt = if rng.chance(2, 3) { (f.max - f.fee).max(0) } else { 1 };
+                        let sp = if rng.chance(4, 5) { fw } else { fwd_addr(!f.pd) };
+                        f.f = F_PULL; f.args = vec![At::A(f.tok), At::A(sp), At::A(f.user), At::A(*rng.pick(&[X, R2, TA])), At::I(amt), At::I(sw)];
+                        tags.push(if sw == 0 { "target:pull-remaining-propagate".into() } else { "target:pull-remaining-swallow".into() }); }
+                36 | 37 => { let sw = rng.below(2) as i128;
+                        f.f = F_APPROVE_FOR; f.args = vec![At::A(f.tok), At::A(f.user), At::A(*rng.pick(&[X, R2, TA])), At::I(1 + rng.below(1000) as i128), At::I((now + 100) as i128), At::I(sw)];
+                        tags.push(if sw == 0 { "target:approve-nobody-propagate".into() } else { "target:approve-nobody-swallow".into() }); }
+                38 | 39 => { let sw = rng.below(2) as i128; let fwd = if rng.chance(2, 3) { fw } else { fwd_addr(!f.pd) };
+                        f.f = F_REENTER; f.args = vec![At::A(fwd), At::I(sw)];
+                        tags.push(if sw == 0 { "target:reenter-propagate".into() } else { "target:reenter-swallow".into() }); }
+                // the fee exceeds the authorised maximum although the existing allowance would cover it
+                _ => { if a0 > 2 { f.max = a0 - 2; f.fee = a0 - rng.below(2) as i128; } else { f.fee = f.max.saturating_add(1); }
+                       tags.push("fee:gt-max-within-allowance".into()); }
             }
         }
         let mut au = f.good_auths();
@@ -763,6 +808,35 @@ fn corpus(out: &mut Out) {
         w.run(out, &Call::Advance(14), &[]);
         w.run(out, &Call::Advance(30), &[]);
         w.finish(out, &format!("corpus-temp-ttl-{}", mt));
+    }
+    // 3e. re-entering targets: while forwarded, the target calls back into the fee token (pulling the user's remaining
+    //     allowance through the forwarder to an attacker, approving for the user) or into forward(); swallowed / propagated
+    for pd in [true, false] {
+        let mut w = World::new();
+        let fw = fwd_addr(pd);
+        w.run(out, &Call::Mint { tok: T1, to: U1, amt: 1000 }, &[]);
+        if pd { w.run(out, &Call::Approve { tok: T1, owner: U1, spender: fw, amt: 400, exp: START + 500, au: owner_auth(T1, U1, fw, 400, START + 500) }, &[]); }
+        let base = Fwd { pd, tok: T1, fee: 10, max: 60, exp: START + 30, target: TA, f: F_HIT, args: vec![At::I(1)], user: U1, relayer: R1 };
+        for sw in [1i128, 0] {
+            let sfx = if sw == 0 { "propagate" } else { "swallow" };
+            // what is in place during the call: eager max - fee = 50, lazy 400 - 10 (then -10 per successful forward)
+            for amt in [50i128, 1, 390, 0] {
+                for sp in [fw, fwd_addr(!pd)] {
+                    let g = Fwd { f: F_PULL, args: vec![At::A(T1), At::A(sp), At::A(U1), At::A(X), At::I(amt), At::I(sw)], ..base.clone() };
+                    w.run(out, &g.call(g.good_auths()), &t(&format!("corpus:reentrant-pull-{}", sfx)));
+                }
+            }
+            let g = Fwd { f: F_APPROVE_FOR, args: vec![At::A(T1), At::A(U1), At::A(X), At::I(500), At::I((START + 100) as i128), At::I(sw)], ..base.clone() };
+            w.run(out, &g.call(g.good_auths()), &t(&format!("corpus:reentrant-approve-{}", sfx)));
+            let g = Fwd { f: F_APPROVE_FOR, args: vec![At::A(T1), At::A(fw), At::A(X), At::I(500), At::I((START + 100) as i128), At::I(sw)], ..base.clone() };
+            w.run(out, &g.call(g.good_auths()), &t(&format!("corpus:reentrant-approve-as-forwarder-{}", sfx)));
+            for fwd in [fw, fwd_addr(!pd)] {
+                let g = Fwd { f: F_REENTER, args: vec![At::A(fwd), At::I(sw)], ..base.clone() };
+                w.run(out, &g.call(g.good_auths()), &t(&format!("corpus:reentrant-forward-{}", sfx)));
+            }
+        }
+        w.run(out, &base.call(base.good_auths()), &t("corpus:good"));
+        w.finish(out, "corpus-reentrant-targets");
     }
     // 3d. persistence: every kind of stored item must survive ONE long ledger advance during which nobody reads it
     //     (balances, supply, allow-list count / entries / indices, roles, target logs; allowances up to live_until)
